@@ -56,10 +56,14 @@ type Op struct {
 	Kind string `json:"kind"` // send | verify
 	P    int    `json:"p"`    // index of the target pair
 	// verify only
-	Code string `json:"code,omitempty"` // right | wrong | trunc | ext | empty | other
-	Pos  int    `json:"pos,omitempty"`  // which character a "wrong" code/hash differs in; which stale hash
-	Hash string `json:"hash,omitempty"` // right | stale | wrong | upper | empty | other
+	// right | wrong | trunc | ext | prefix | pad | prev | empty | other, or - code and hash together, Hash is
+	// then ignored - shl (the last 1..3 characters of the code move to the front of the hash) | shr (the first
+	// 1..3 characters of the hash move to the end of the code)
+	Code string `json:"code,omitempty"`
+	Pos  int    `json:"pos,omitempty"`  // which character a "wrong" code/hash differs in; which stale hash; how many characters move / are added / cut (1 + Pos%3)
+	Hash string `json:"hash,omitempty"` // right | stale | prev | wrong | upper | ext | trunc | empty | other
 	From int    `json:"from,omitempty"` // pair whose code/hash "other" takes
+	Pad  string `json:"pad,omitempty"`  // code "pad": characters outside the alphabet put before (Pos%3 == 0), after (1) or around (2) the right code
 }
 
 type Case struct {
@@ -94,35 +98,123 @@ func genDigits(t *rapid.T, lo, hi int, label string) string {
 	return string(b)
 }
 
-var areas = []string{"86", "8", "1", "852", "44", "+86", ""}
+var areas = []string{"86", "8", "1", "852", "44", "+86", "086", ""}
 
-func genPairs(t *rapid.T) []Pair {
-	// phones are at least 9 digits: every mock code (<= 8 characters) is then
-	// "the last CodeLen digits of the phone" without any padding rule.
-	base := Pair{Area: rapid.SampledFrom(areas).Draw(t, "area"), Phone: genDigits(t, 10, 11, "phone")}
+func isDigit(b byte) bool { return b >= '0' && b <= '9' }
+
+// tailDigits is the length of the run of digits a phone ends with: the mock code
+// ("the last CodeLen digits of the phone") is only specified up to that length.
+func tailDigits(phone string) int {
+	n := 0
+	for n < len(phone) && isDigit(phone[len(phone)-1-n]) {
+		n++
+	}
+	return n
+}
+
+// bumpDigit replaces the first (last=false) or last digit of the phone by another digit.
+func bumpDigit(phone string, last bool, by int) string {
+	p := []byte(phone)
+	at := -1
+	for i := range p {
+		if isDigit(p[i]) {
+			at = i
+			if !last {
+				break
+			}
+		}
+	}
+	if at < 0 {
+		return phone + "5"
+	}
+	p[at] = digits[(int(p[at]-'0')+by)%10]
+	return string(p)
+}
+
+// normalised is what a (hypothetical) normaliser would make of a pair: blanks,
+// dashes, the plus sign and leading zeros dropped, area code and phone joined.
+// Pairs that differ but normalise to the same string are still different pairs.
+func normalised(p Pair) string {
+	strip := func(s string) string {
+		b := make([]byte, 0, len(s))
+		for i := 0; i < len(s); i++ {
+			if s[i] != ' ' && s[i] != '-' && s[i] != '+' && (s[i] != '0' || len(b) > 0) {
+				b = append(b, s[i])
+			}
+		}
+		return string(b)
+	}
+	return strip(strip(p.Area) + strip(p.Phone))
+}
+
+func genPairs(t *rapid.T, mock bool, codeLen int) []Pair {
+	// In mock mode every phone ends with at least max(9, CodeLen) digits: the mock code is
+	// then "the last CodeLen digits of the phone" without any padding rule and without
+	// a question what the "digits" of a phone with other characters are.
+	need := 9
+	if codeLen > need {
+		need = codeLen
+	}
+	base := Pair{Area: rapid.SampledFrom(areas).Draw(t, "area"), Phone: genDigits(t, need+1, need+2, "phone")}
+	if rapid.IntRange(0, 5).Draw(t, "lead0") == 0 {
+		base.Phone = "0" + base.Phone[1:]
+	}
 	ps := []Pair{base}
 	n := rapid.IntRange(1, 4).Draw(t, "npairs")
 	for len(ps) < n {
 		src := ps[rapid.IntRange(0, len(ps)-1).Draw(t, "src")]
 		var q Pair
-		switch rapid.IntRange(0, 5).Draw(t, "pairkind") {
-		case 0, 1: // concatenation collides: one digit moves from the phone to the area code
+		switch rapid.IntRange(0, 11).Draw(t, "pairkind") {
+		case 0, 1: // concatenation collides: one character (never a dash, see ExecHistory) moves from the phone to the area code
 			q = Pair{Area: src.Area + src.Phone[:1], Phone: src.Phone[1:]}
-			if len(q.Phone) < 9 {
+			if len(q.Phone) < need || src.Phone[0] == '-' {
 				q = Pair{Area: src.Area, Phone: src.Phone + "7"}
 			}
 		case 2: // same phone, other area code
 			q = Pair{Area: rapid.SampledFrom(areas).Draw(t, "area2"), Phone: src.Phone}
 		case 3: // same area code, phone differing in the last digit (other mock code)
-			p := []byte(src.Phone)
-			p[len(p)-1] = digits[(int(p[len(p)-1]-'0')+rapid.IntRange(1, 9).Draw(t, "d"))%10]
-			q = Pair{Area: src.Area, Phone: string(p)}
+			q = Pair{Area: src.Area, Phone: bumpDigit(src.Phone, true, rapid.IntRange(1, 9).Draw(t, "d"))}
 		case 4: // same area code, phone differing in the first digit (same mock code)
-			p := []byte(src.Phone)
-			p[0] = digits[(int(p[0]-'0')+rapid.IntRange(1, 9).Draw(t, "d"))%10]
-			q = Pair{Area: src.Area, Phone: string(p)}
-		default:
-			q = Pair{Area: rapid.SampledFrom(areas).Draw(t, "area3"), Phone: genDigits(t, 9, 11, "phone3")}
+			q = Pair{Area: src.Area, Phone: bumpDigit(src.Phone, false, rapid.IntRange(1, 9).Draw(t, "d"))}
+		case 5:
+			q = Pair{Area: rapid.SampledFrom(areas).Draw(t, "area3"), Phone: genDigits(t, need, need+2, "phone3")}
+		// the remaining derivations differ from src only by what a normaliser would strip
+		case 6, 7: // phone with / without leading zeros
+			if strings.HasPrefix(src.Phone, "0") && rapid.Bool().Draw(t, "strip0") {
+				q = Pair{Area: src.Area, Phone: src.Phone[1:]}
+			} else {
+				q = Pair{Area: src.Area, Phone: rapid.SampledFrom([]string{"0", "0", "00"}).Draw(t, "zeros") + src.Phone}
+			}
+		case 8: // surrounding blanks
+			switch rapid.IntRange(0, 2).Draw(t, "blank") {
+			case 0:
+				q = Pair{Area: src.Area, Phone: " " + src.Phone}
+			case 1:
+				q = Pair{Area: src.Area, Phone: src.Phone + " "}
+			default:
+				q = Pair{Area: " " + src.Area, Phone: src.Phone}
+			}
+		case 9: // a dash inside the phone
+			at := rapid.IntRange(1, 4).Draw(t, "dash")
+			if at > len(src.Phone) {
+				at = len(src.Phone)
+			}
+			q = Pair{Area: src.Area, Phone: src.Phone[:at] + "-" + src.Phone[at:]}
+		case 10: // area code with / without leading zeros ("086" vs "86")
+			if strings.HasPrefix(src.Area, "0") && rapid.Bool().Draw(t, "strip0") {
+				q = Pair{Area: src.Area[1:], Phone: src.Phone}
+			} else {
+				q = Pair{Area: rapid.SampledFrom([]string{"0", "00"}).Draw(t, "zeros") + src.Area, Phone: src.Phone}
+			}
+		default: // area code with / without the plus sign
+			if strings.HasPrefix(src.Area, "+") {
+				q = Pair{Area: src.Area[1:], Phone: src.Phone}
+			} else {
+				q = Pair{Area: "+" + src.Area, Phone: src.Phone}
+			}
+		}
+		if mock && tailDigits(q.Phone) < need { // the mock code of q would not be specified
+			q = Pair{Area: src.Area, Phone: "0" + src.Phone}
 		}
 		dup := false
 		for _, x := range ps {
@@ -143,20 +235,31 @@ func genPairs(t *rapid.T) []Pair {
 	return ps
 }
 
-var wrongCodes = []string{"wrong", "wrong", "wrong", "trunc", "ext", "empty", "other"}
-var wrongHashes = []string{"stale", "stale", "wrong", "wrong", "upper", "empty", "other"}
+var wrongCodes = []string{"wrong", "wrong", "wrong", "trunc", "ext", "prefix", "pad", "pad", "prev", "empty", "other"}
+var wrongHashes = []string{"stale", "stale", "prev", "wrong", "wrong", "upper", "ext", "trunc", "empty", "other"}
+
+// characters outside the code alphabet that a lenient comparison might ignore
+var pads = []string{" ", " ", " ", "  ", "\t", "\n", "\r\n", "\x00", "+", "-", ".", "x", "\u00a0", "\u3000"}
+
+// limits are mostly small (short bursts reach them), sometimes up to 12
+func genLimit(t *rapid.T, label string) int {
+	if rapid.IntRange(0, 5).Draw(t, label+"big") == 0 {
+		return rapid.IntRange(5, 12).Draw(t, label)
+	}
+	return rapid.IntRange(0, 4).Draw(t, label)
+}
 
 func GenHistory(t *rapid.T) Case {
 	c := Case{
 		Mock:           rapid.Bool().Draw(t, "mock"),
-		CodeLen:        rapid.IntRange(1, 8).Draw(t, "codelen"),
-		MaxCount:       rapid.IntRange(0, 4).Draw(t, "maxcount"),
-		MaxVerifyCount: rapid.IntRange(0, 4).Draw(t, "maxverify"),
+		CodeLen:        rapid.IntRange(1, 12).Draw(t, "codelen"),
+		MaxCount:       genLimit(t, "maxcount"),
+		MaxVerifyCount: genLimit(t, "maxverify"),
 		TTL:            rapid.SampledFrom([]int64{never, never, never, never, never, always}).Draw(t, "ttl"),
 		MinInterval:    rapid.SampledFrom([]int64{0, 0, 0, never}).Draw(t, "mininterval"),
 		CounterDur:     rapid.SampledFrom([]int64{never, never, always}).Draw(t, "counterdur"),
 	}
-	c.Pairs = genPairs(t)
+	c.Pairs = genPairs(t, c.Mock, c.CodeLen)
 	np := len(c.Pairs)
 	c.CacheSize = int64(np) + rapid.SampledFrom([]int64{0, 0, 1, 5, 1000}).Draw(t, "cacheextra")
 	focus := rapid.IntRange(0, np-1).Draw(t, "focus")
@@ -171,14 +274,38 @@ func GenHistory(t *rapid.T) Case {
 		if code == "other" || hash == "other" {
 			o.From = rapid.IntRange(0, np-1).Draw(t, "from")
 		}
+		if code == "pad" {
+			o.Pad = rapid.SampledFrom(pads).Draw(t, "pad")
+		}
+		if code == "shl" || code == "shr" {
+			o.Hash = ""
+		}
 		return o
 	}
+	// related(p): a pair that differs from p but looks the same after normalising (or, failing that, any pair)
+	norm := make([]string, np)
+	for i, x := range c.Pairs {
+		norm[i] = normalised(x)
+	}
+	related := func(p int) int {
+		q := rapid.IntRange(0, np-1).Draw(t, "q")
+		if rapid.IntRange(0, 3).Draw(t, "related") > 0 {
+			for j, x := range c.Pairs {
+				if x != c.Pairs[p] && norm[j] == norm[p] && (q == p || rapid.Bool().Draw(t, "takerel")) {
+					q = j
+				}
+			}
+		}
+		return q
+	}
 	wrongVerify := func(p int) Op {
-		switch rapid.IntRange(0, 3).Draw(t, "wrongkind") {
+		switch rapid.IntRange(0, 4).Draw(t, "wrongkind") {
 		case 0: // right code, wrong hash
 			return verify(p, "right", rapid.SampledFrom(wrongHashes).Draw(t, "whash"))
 		case 1: // wrong code and wrong hash
 			return verify(p, rapid.SampledFrom(wrongCodes).Draw(t, "wcode"), rapid.SampledFrom(wrongHashes).Draw(t, "whash"))
+		case 4: // the right characters, but the boundary between code and hash moved
+			return verify(p, rapid.SampledFrom([]string{"shl", "shr"}).Draw(t, "shift"), "")
 		default: // wrong code, right hash
 			return verify(p, rapid.SampledFrom(wrongCodes).Draw(t, "wcode"), "right")
 		}
@@ -190,7 +317,7 @@ func GenHistory(t *rapid.T) Case {
 	step := rapid.Custom(func(t *rapid.T) []Op {
 		var ops []Op
 		p := pick()
-		switch k := rapid.IntRange(0, 19).Draw(t, "opkind"); {
+		switch k := rapid.IntRange(0, 23).Draw(t, "opkind"); {
 		case k < 5:
 			ops = append(ops, Op{Kind: "send", P: p})
 		case k < 10:
@@ -198,14 +325,7 @@ func GenHistory(t *rapid.T) Case {
 		case k < 14:
 			ops = append(ops, wrongVerify(p))
 		case k < 16: // the code and hash of p presented for another pair
-			q := rapid.IntRange(0, np-1).Draw(t, "q")
-			if rapid.Bool().Draw(t, "collider") { // prefer a pair whose concatenation equals p's
-				for j, x := range c.Pairs {
-					if j != p && x.Area+x.Phone == c.Pairs[p].Area+c.Pairs[p].Phone {
-						q = j
-					}
-				}
-			}
+			q := related(p) // prefer a pair that a normaliser (or a key without separator) would identify with p
 			o := verify(q, "other", "other")
 			o.From = p
 			ops = append(ops, o)
@@ -227,11 +347,40 @@ func GenHistory(t *rapid.T) Case {
 			if rapid.IntRange(0, 2).Draw(t, "resend") == 0 { // a new send must reset the attempts
 				ops = append(ops, Op{Kind: "send", P: p}, verify(p, "right", "right"))
 			}
-		default: // burst of sends around the count limit
+		case k < 20: // burst of sends around the count limit
 			for i, k := 0, c.MaxCount+rapid.IntRange(0, 2).Draw(t, "sendburst"); i < k; i++ {
 				ops = append(ops, Op{Kind: "send", P: p})
 			}
 			ops = append(ops, verify(p, "right", "right"))
+		case k < 22: // after a resend the previous code is dead: with the current hash and with its own
+			ops = append(ops, Op{Kind: "send", P: p}, Op{Kind: "send", P: p})
+			if rapid.Bool().Draw(t, "prevcur") {
+				ops = append(ops, verify(p, "prev", "right"))
+			}
+			if rapid.Bool().Draw(t, "prevown") {
+				ops = append(ops, verify(p, "prev", "prev"))
+			}
+			ops = append(ops, verify(p, "right", "right"))
+		default: // two pairs a normaliser would identify share nothing: sends to and attempts against q leave p's code, hash and counters alone
+			q := related(p)
+			ops = append(ops, Op{Kind: "send", P: p})
+			switch rapid.IntRange(0, 2).Draw(t, "relkind") {
+			case 0:
+				ops = append(ops, Op{Kind: "send", P: q})
+			case 1:
+				ops = append(ops, Op{Kind: "send", P: q})
+				for i, k := 0, rapid.IntRange(1, c.MaxVerifyCount+1).Draw(t, "relwrong"); i < k; i++ {
+					ops = append(ops, wrongVerify(q))
+				}
+			default:
+				o := verify(q, "other", "other")
+				o.From = p
+				ops = append(ops, o)
+			}
+			ops = append(ops, verify(p, "right", "right"))
+			if rapid.Bool().Draw(t, "relq") {
+				ops = append(ops, verify(q, "right", "right"))
+			}
 		}
 		return ops
 	})
@@ -250,6 +399,7 @@ type pairModel struct {
 	window     int      // accepted sends in the current (never ending) window
 	accepted   int      // accepted sends ever
 	oldHashes  []string // hashes of earlier sends (now invalid)
+	oldCodes   []string // the codes sent with them, same index
 	overBefore bool     // the previous code had run over its attempt limit
 }
 
@@ -318,15 +468,22 @@ func ExecHistory(c Case) *vkit.Result {
 		return false
 	}
 	if !regime(c.TTL, never, always) || !regime(c.MinInterval, 0, never) || !regime(c.CounterDur, never, always) ||
-		c.CodeLen < 1 || c.CodeLen > 8 || c.MaxCount < 0 || c.MaxVerifyCount < 0 || len(c.Pairs) == 0 {
+		c.CodeLen < 1 || c.CodeLen > 64 || c.MaxCount < 0 || c.MaxVerifyCount < 0 || len(c.Pairs) == 0 {
 		res.Skip("case outside the always/never regimes")
 		return res
 	}
 	distinct := map[Pair]bool{}
 	for _, p := range c.Pairs {
 		distinct[p] = true
-		if len(p.Phone) < c.CodeLen {
-			res.Skip("phone shorter than the code (mock padding is not specified)")
+		if strings.Contains(p.Area, "-") {
+			// ("1-868","5551234") and ("1","868-5551234") are different pairs which the cache key
+			// area-phone does not tell apart; area codes with a dash are outside the declared domain
+			// (props/C19.json), the observation is reported there.
+			res.Skip("area code with a dash (outside the declared domain)")
+			return res
+		}
+		if c.Mock && tailDigits(p.Phone) < c.CodeLen {
+			res.Skip("phone ends with fewer digits than the code has (the mock code is not specified)")
 			return res
 		}
 	}
@@ -341,6 +498,27 @@ func ExecHistory(c Case) *vkit.Result {
 	}
 	if collide(c.Pairs) {
 		res.Class("pairs:colliding-concatenation")
+	}
+	norm := make([]string, len(c.Pairs))
+	for i, x := range c.Pairs {
+		norm[i] = normalised(x)
+	}
+	for i := range c.Pairs {
+		for j := i + 1; j < len(c.Pairs); j++ {
+			a, b := c.Pairs[i], c.Pairs[j]
+			if a != b && a.Area+a.Phone != b.Area+b.Phone && norm[i] == norm[j] {
+				res.Class("pairs:equal-after-normalising")
+			}
+		}
+	}
+	if c.CodeLen > 8 {
+		res.Class("codelen:9..")
+	}
+	if c.MaxCount > 4 {
+		res.Class("maxcount:5..")
+	}
+	if c.MaxVerifyCount > 4 {
+		res.Class("maxverify:5..")
 	}
 	if c.TTL == always {
 		res.Class("regime:ttl-always-expired")
@@ -473,6 +651,7 @@ func ExecHistory(c Case) *vkit.Result {
 					return res.Failf("send/hash-reused", "%s returned the hash of the previous send again (%s): the old hash is not invalidated", at, showHash(hash))
 				}
 				m.oldHashes = append(m.oldHashes, m.hash)
+				m.oldCodes = append(m.oldCodes, m.code)
 			}
 			m.overBefore = m.exists && m.attempts > c.MaxVerifyCount
 			m.exists, m.code, m.hash = true, code, hash
@@ -493,6 +672,10 @@ func ExecHistory(c Case) *vkit.Result {
 			}
 			var code, hash string
 			usedStale := false
+			shift := 1 + op.Pos%3
+			if op.Pos < 0 {
+				shift = 1
+			}
 			switch op.Code {
 			case "right":
 				code = rightCode
@@ -504,6 +687,29 @@ func ExecHistory(c Case) *vkit.Result {
 				}
 			case "ext":
 				code = rightCode + digits[op.Pos%10:op.Pos%10+1]
+			case "prefix":
+				code = digits[op.Pos%10:op.Pos%10+1] + rightCode
+			case "pad":
+				pad := op.Pad
+				if strings.Trim(pad, digits) == "" { // a replayed case without padding, or with digits: still a wrong code
+					pad += " "
+				}
+				switch op.Pos % 3 {
+				case 0:
+					code = pad + rightCode
+				case 1:
+					code = rightCode + pad
+				default:
+					code = pad + rightCode + pad
+				}
+			case "prev":
+				if len(m.oldCodes) == 0 {
+					res.Skip("previous code requested before a second send (a wrong code is used)")
+					code = alter(rightCode, op.Pos, digits)
+				} else {
+					code = m.oldCodes[len(m.oldCodes)-1]
+				}
+			case "shl", "shr": // below, together with the hash
 			case "empty":
 				code = ""
 			case "other":
@@ -515,9 +721,39 @@ func ExecHistory(c Case) *vkit.Result {
 				res.Skip("unknown code kind")
 				continue
 			}
-			switch op.Hash {
+			hashKind := op.Hash
+			switch op.Code {
+			case "shl": // the concatenation code+hash is the right one, the boundary is not
+				k := shift
+				if k > len(rightCode) {
+					k = len(rightCode)
+				}
+				code, hash, hashKind = rightCode[:len(rightCode)-k], rightCode[len(rightCode)-k:]+rightHash, "shifted"
+			case "shr":
+				k := shift
+				if k > len(rightHash) {
+					k = len(rightHash)
+				}
+				code, hash, hashKind = rightCode+rightHash[:k], rightHash[k:], "shifted"
+			}
+			switch hashKind {
+			case "shifted":
 			case "right":
 				hash = rightHash
+			case "prev":
+				if len(m.oldHashes) == 0 {
+					res.Skip("previous hash requested before a second send (a wrong hash is used)")
+					hash = alter(rightHash, op.Pos, "0123456789abcdef")
+				} else {
+					hash = m.oldHashes[len(m.oldHashes)-1]
+					usedStale = true
+				}
+			case "ext":
+				hash = rightHash + strings.Repeat("0123456789abcdef"[op.Pos%16:op.Pos%16+1], shift)
+			case "trunc":
+				if hash = ""; len(rightHash) > shift {
+					hash = rightHash[:len(rightHash)-shift]
+				}
 			case "stale":
 				if len(m.oldHashes) == 0 {
 					res.Skip("stale hash requested before a second send (a wrong hash is used)")
@@ -541,7 +777,7 @@ func ExecHistory(c Case) *vkit.Result {
 				res.Skip("unknown hash kind")
 				continue
 			}
-			at = fmt.Sprintf("op %d verify(%q,%q, code %s=%s, hash %s=%s)", i, pair.Area, pair.Phone, op.Code, showCode(code), op.Hash, showHash(hash))
+			at = fmt.Sprintf("op %d verify(%q,%q, code %s=%s, hash %s=%s)", i, pair.Area, pair.Phone, op.Code, showCode(code), hashKind, showHash(hash))
 
 			// expectation
 			codeOK := m.exists && code == m.code
@@ -608,8 +844,26 @@ func ExecHistory(c Case) *vkit.Result {
 			if got && m.attempts == c.MaxVerifyCount {
 				res.Class("verify:ok-on-last-allowed-attempt")
 			}
+			if m.exists && !(codeOK && hashOK) {
+				switch {
+				case op.Code == "shl" || op.Code == "shr":
+					res.Class("verify:code-hash-boundary-moved")
+				case op.Code == "pad":
+					res.Class("verify:padded-right-code")
+				case op.Code == "prev" && !codeOK && hashOK:
+					res.Class("verify:previous-code-current-hash")
+				case op.Code == "prev" && !codeOK && op.Hash == "prev" && usedStale:
+					res.Class("verify:previous-code-own-hash")
+				}
+				if codeOK && (op.Hash == "ext" || op.Hash == "trunc") {
+					res.Class("verify:right-code-hash-" + op.Hash)
+				}
+			}
 			if otherPair && m.exists {
 				res.Class("verify:other-pairs-code-and-hash")
+				if c.Pairs[op.From] != pair && norm[op.From] == norm[op.P] {
+					res.Class("verify:related-pairs-code-and-hash")
+				}
 				if c.Pairs[op.From].Area+c.Pairs[op.From].Phone == pair.Area+pair.Phone && c.Pairs[op.From] != pair {
 					res.Class("verify:colliding-pairs-code-and-hash")
 				}
@@ -629,9 +883,12 @@ func ExecHistory(c Case) *vkit.Result {
 var PartHistory = vkit.Part[Case]{
 	Property: Property,
 	Name:     "history",
-	Rule: "Generated: mock or real-sender mode (fake SMS module capturing the code), CodeLen 1..8, MaxCount and MaxVerifyCount 0..4, TTL in {1000h, -1ns}, MinInterval in {0, 1000h}, " +
-		"CounterDuration in {1000h, -1ns}, CacheSize >= #pairs, 1..4 (area, phone) pairs derived from each other (concatenation collides, same phone other area, last/first digit differs), " +
-		"1..16 steps (a call or a burst, <= ~60 calls): Send, Verify(right|wrong|truncated|extended|empty|other pair's code x right|stale|wrong|upper-cased|empty|other pair's hash), bursts of wrong attempts around MaxVerifyCount followed by the right code, bursts of sends around MaxCount. " +
+	Rule: "Generated: mock or real-sender mode (fake SMS module capturing the code), CodeLen 1..12, MaxCount and MaxVerifyCount 0..12 (5/6 of the cases 0..4), TTL in {1000h, -1ns}, MinInterval in {0, 1000h}, " +
+		"CounterDuration in {1000h, -1ns}, CacheSize >= #pairs, 1..4 (area, phone) pairs derived from each other (concatenation collides, same phone other area, last/first digit differs, and pairs that differ only by what a normaliser would strip: " +
+		"leading 0/00 of the phone or of the area code, a blank before/after, a dash inside, the plus sign), " +
+		"1..16 steps (a call or a burst): Send, Verify(right|wrong|truncated|extended|digit-prefixed|padded with blanks or other non-alphabet characters|previous|empty|other pair's code x right|stale|previous|wrong|upper-cased|extended|truncated|empty|other pair's hash), " +
+		"Verify with 1..3 characters moved across the code/hash boundary, bursts of wrong attempts around MaxVerifyCount followed by the right code, bursts of sends around MaxCount, " +
+		"resend followed by the previous code (with the current and with its own hash), send to p / sends and attempts on a pair related to p / right code for p. " +
 		"Oracle: per-pair model {code, hash, attempts, accepted sends in window} from the statement. " +
 		"Non-trivial: the history contains a Verify with the right code and hash after >= 1 wrong attempt against the same code, or a refused send.",
 	Quick:    20000,
@@ -650,7 +907,7 @@ type AlphaCase struct {
 }
 
 func GenAlpha(t *rapid.T) AlphaCase {
-	c := AlphaCase{CodeLen: rapid.IntRange(1, 8).Draw(t, "codelen"), Phones: rapid.IntRange(1, 3).Draw(t, "phones")}
+	c := AlphaCase{CodeLen: rapid.IntRange(1, 12).Draw(t, "codelen"), Phones: rapid.IntRange(1, 3).Draw(t, "phones")}
 	c.Sends = (minAlphabetSample+c.CodeLen-1)/c.CodeLen + rapid.IntRange(0, 50).Draw(t, "extra")
 	return c
 }
@@ -709,7 +966,7 @@ func ExecAlpha(c AlphaCase) *vkit.Result {
 var PartAlphabet = vkit.Part[AlphaCase]{
 	Property: Property,
 	Name:     "alphabet",
-	Rule: "Generated: CodeLen 1..8, 1..3 phones, ceil(20000/CodeLen)+0..50 accepted sends in real-sender mode (MinInterval 0, window always new); the fake SMS module collects the codes. " +
+	Rule: "Generated: CodeLen 1..12, 1..3 phones, ceil(20000/CodeLen)+0..50 accepted sends in real-sender mode (MinInterval 0, window always new); the fake SMS module collects the codes. " +
 		"Oracle: every code has length CodeLen, only characters of 0123456789, and each of the ten occurs among the >= 20000 characters (a uniform generator misses one with probability < 1e-900). " +
 		"Non-trivial: every executed case (it always draws >= 20000 characters).",
 	Quick:    24,
